@@ -22,12 +22,14 @@ ERRNO_NAMES = {v: k for k, v in impl.ERRNO_NAMES.items()}
 SHM = '/dev/shm'
 
 
-def compress(fmt, data):
+def compress(fmt, data, flush=False):
     if fmt == 'gz':
         import io
         b = io.BytesIO()
         with gzip.GzipFile(fileobj=b, mode='wb', filename='', mtime=0) as f:
             f.write(data)
+            if flush:
+                f.flush()          # save_manifest() flushes before asking for the size: a sync-flush block is emitted
         return b.getvalue()
     if fmt == 'bz2':
         return bz2.compress(data)
@@ -39,7 +41,8 @@ def compress(fmt, data):
 
 
 def decompress(fmt, data):
-    """plain bytes, or None for invalid data"""
+    """plain bytes, or 0 for invalid data (swallowed by the unregistered-Manifest scan), or 1 for a damaged stream"""
+    import zlib
     try:
         if fmt == 'gz':
             return gzip.decompress(data)
@@ -49,9 +52,11 @@ def decompress(fmt, data):
             return lzma.decompress(data, format=lzma.FORMAT_ALONE)
         if fmt == 'xz':
             return lzma.decompress(data, format=lzma.FORMAT_XZ)
+    except (zlib.error, EOFError):
+        return 1
     except Exception:
-        return None
-    return None
+        return 0
+    return 0
 
 
 def suffix_of(name):
@@ -131,6 +136,27 @@ class Tree:
                     out.append((p, t))
         rec(self.root, '')
         return out
+
+    def link_paths(self):
+        """relative paths that are directory symlinks under the realisation rule (first edge met is the directory)"""
+        seen = {self.root}
+        links = set()
+
+        def rec(i, prefix):
+            for name, t in self.nodes[i]['ents']:
+                if not isinstance(t, int) or self.nodes[t]['k'] != 'd':
+                    continue
+                n = self.nodes[t]
+                if t in seen or (n['parent'] != i and n['dev'] == self.nodes[i]['dev']):
+                    links.add(prefix + name)
+                    continue
+                seen.add(t)
+                if n['dev'] != self.nodes[i]['dev']:
+                    links.add(prefix + name)
+                    continue
+                rec(t, prefix + name + '/')
+        rec(self.root, '')
+        return links
 
     def clone(self):
         import copy
@@ -247,7 +273,7 @@ def codec_table(tree):
                 if fmt and (fmt, tree.nodes[t]['data']) not in seen:
                     seen.add((fmt, tree.nodes[t]['data']))
                     p = decompress(fmt, tree.nodes[t]['data'])
-                    out.append([fmt, tree.nodes[t]['data'], p if p is not None else 0])
+                    out.append(['d', fmt, tree.nodes[t]['data'], p])
     return out
 
 
@@ -426,14 +452,15 @@ def run_impl(base, top, opts, allow_create, allow_xdev, ops, order_key, real_fau
     import gemato.util as gu
     hashes, sort, wm, fmt, profile, sign, keyid, vpgp = opts
     out = []
+    def mk(create):
+        return rl.ManifestRecursiveLoader(os.path.join(base, top), verify_openpgp=bool(vpgp), openpgp_env=None,
+                                          sign_openpgp=sign, openpgp_keyid=keyid, hashes=hashes,
+                                          allow_create=bool(create), sort=(True if sort else None),
+                                          compress_watermark=wm, compress_format=(fmt or None),
+                                          profile=gp.get_profile_by_name(profile), allow_xdev=bool(allow_xdev))
     with FaultInjector(real_faults), ScandirOrder(order_key):
         try:
-            kw = {}
-            m = rl.ManifestRecursiveLoader(os.path.join(base, top), verify_openpgp=bool(vpgp), openpgp_env=None,
-                                           sign_openpgp=sign, openpgp_keyid=keyid, hashes=hashes,
-                                           allow_create=bool(allow_create), sort=(True if sort else None),
-                                           compress_watermark=wm, compress_format=fmt,
-                                           profile=gp.get_profile_by_name(profile), allow_xdev=bool(allow_xdev))
+            m = mk(allow_create)
         except Exception as e:
             return canon_exc(e, base)
         for op in ops:
@@ -467,12 +494,139 @@ def run_impl(base, top, opts, allow_create, allow_xdev, ops, order_key, real_fau
                     out.append(['ok', [[k, [[f, impl.entry_sx(e)] for f, e in v.items()]] for k, v in d.items()]])
                 elif op[0] == 'loaded':
                     out.append(['ok', list(m.loaded_manifests.keys())])
+                elif op[0] == 'reload':
+                    top = m.top_level_manifest_filename if False else top
+                    m = mk(False)
+                    out.append(['ok', []])
+                elif op[0] == 'update':
+                    m.update_entries_for_directory(op[1], hashes=(op[2][0] if op[2] else None),
+                                                   last_mtime=(op[3][0] if op[3] else None))
+                    out.append(['ok', []])
+                elif op[0] == 'save':
+                    m.save_manifests(hashes=(op[1][0] if op[1] else None), force=bool(op[2]),
+                                     sort=(bool(op[3][0]) if op[3] else None),
+                                     compress_watermark=(op[4][0] if op[4] else None),
+                                     compress_format=(op[5][0] if op[5] else None))
+                    out.append(['ok', []])
+                elif op[0] == 'set_timestamp':
+                    import datetime
+                    m.set_timestamp(datetime.datetime(*op[1]))
+                    out.append(['ok', []])
+                elif op[0] == 'find_timestamp':
+                    e = m.find_timestamp()
+                    out.append(['ok', [impl.entry_sx(e)] if e is not None else []])
+                elif op[0] == 'files':
+                    out.append(['ok', list_real_files(base)])
+                elif op[0] == 'manifests':
+                    out.append(['ok', [[k, [impl.entry_sx(e) for e in mf.entries]] for k, mf in m.loaded_manifests.items()]])
+                elif op[0] == 'updated':
+                    out.append(['ok', sorted(m.updated_manifests)])
                 else:
                     raise RuntimeError('unknown op ' + op[0])
             except Exception as e:
                 out.append(canon_exc(e, base))
                 break
     return ['ok', out]
+
+
+def list_real_files(base):
+    """(relative path, content, mtime seconds) of every regular file below base, physical directories only"""
+    out = []
+
+    def rec(d, prefix):
+        with os.scandir(d) as it:
+            ents = sorted(it, key=lambda e: e.name)
+        for e in ents:
+            p = os.path.join(d, e.name)
+            if e.is_symlink():
+                if os.path.isfile(p):
+                    out.append([prefix + e.name, open(p, 'rb').read(), int(os.stat(p).st_mtime)])
+                continue
+            if e.is_dir(follow_symlinks=False):
+                rec(p, prefix + e.name + '/')
+            elif e.is_file(follow_symlinks=False):
+                out.append([prefix + e.name, open(p, 'rb').read(), int(os.stat(p).st_mtime)])
+    rec(base, '')
+    return out
+
+
+def canon_files(lst, links=()):
+    """files listing with run-written mtimes abstracted; paths through directory symlinks dropped"""
+    def through_link(p):
+        parts = p.split('/')
+        return any('/'.join(parts[:k]) in links for k in range(1, len(parts)))
+    return sorted([p, d if isinstance(d, str) else d, ('W' if m > 1750000000 else m)] for p, d, m in lst if not through_link(p))
+
+
+def complete_oracles(req, reply):
+    """if the model reply reports oracle misses, extend the tables of the request; returns True if extended"""
+    misses = []
+
+    def find(x):
+        if isinstance(x, list):
+            if len(x) == 2 and x[0] == 'OracleMiss' and isinstance(x[1], list):
+                misses.append(x[1])
+            else:
+                for y in x:
+                    find(y)
+    find(reply)
+    if not misses:
+        return False
+    for q in misses:
+        if len(q) == 2:
+            name, content = q[0], q[1].encode('latin1')
+            try:
+                req[2].append([name, content, hashlib.new(name, content).hexdigest()])
+            except ValueError:
+                req[2].append([name, content, 'unsupported'])
+        elif len(q) == 3:
+            d, fmt, data = q[0], q[1], q[2].encode('latin1')
+            if d == 'c':
+                req[3].append(['c', fmt, data, compress(fmt, data, flush=True)])
+            else:
+                req[3].append(['d', fmt, data, decompress(fmt, data)])
+    return True
+
+
+def preseed_oracles(req, impl_result):
+    """add digests / codec pairs of the Manifest files the implementation left behind (so that the model
+    usually needs no completion round when both agree); computed with hashlib and the codecs, not gemato"""
+    if not (isinstance(impl_result, list) and impl_result and impl_result[0] == 'ok'):
+        return
+    seen = set()
+    for x in impl_result[1]:
+        if not (isinstance(x, list) and len(x) == 2 and x[0] == 'ok' and isinstance(x[1], list)):
+            continue
+        for item in x[1]:
+            if not (isinstance(item, list) and len(item) == 3 and isinstance(item[1], (bytes, bytearray))):
+                continue
+            path, data = item[0], bytes(item[1])
+            name = os.path.basename(path)
+            if not name.startswith('Manifest') or data in seen:
+                continue
+            seen.add(data)
+            for h in GOOD_HASHES:
+                lib = HASHLIB[h]
+                req[2].append([lib, data, hashlib.new(lib, data).hexdigest()])
+            fmt = suffix_of(name)
+            if fmt:
+                plain = decompress(fmt, data)
+                req[3].append(['d', fmt, data, plain])
+                if isinstance(plain, bytes):
+                    req[3].append(['c', fmt, plain, compress(fmt, plain, flush=True)])
+
+
+def run_model_completing(reqs, rounds=40):
+    """run the model on tree requests, completing the oracle tables until no miss remains"""
+    replies = run_model(reqs, jobs=16)
+    for _ in range(rounds):
+        redo = [i for i, (rq, rp) in enumerate(zip(reqs, replies)) if complete_oracles(rq, rp)]
+        if not redo:
+            break
+        new = run_model([reqs[i] for i in redo], jobs=16)
+        for i, rp in zip(redo, new):
+            replies[i] = rp
+    return replies
 
 
 class Scratch:
@@ -503,12 +657,16 @@ class Scratch:
             shutil.rmtree(self.shm, ignore_errors=True)
 
 
-def model_request(tree, top, opts, allow_create, allow_xdev, ops, order_key, hash_names, faults=()):
+WRITE_MTIME = 1800000000
+
+
+def model_request(tree, top, opts, allow_create, allow_xdev, ops, order_key, hash_names, faults=(), extra_digests=(), extra_codec=()):
     hashes, sort, wm, fmt, profile, sign, keyid, vpgp = opts
-    o = [[hashes] if hashes is not None else [], 1 if sort else 0, [wm] if wm is not None else [], fmt or 'gz', profile,
+    o = [[hashes] if hashes is not None else [], [1] if sort else [], [wm] if wm is not None else [], [fmt] if fmt else [], profile,
          [1 if sign else 0] if sign is not None else [], [keyid] if keyid else [], 1 if vpgp else 0]
-    return ['tree', tree.to_sx(faults, order_key), digest_table(tree, hash_names), codec_table(tree),
-            [top, o, 1 if allow_create else 0, 1 if allow_xdev else 0], [encode_op(op) for op in ops]]
+    return ['tree', tree.to_sx(faults, order_key), digest_table(tree, hash_names) + list(extra_digests),
+            codec_table(tree) + list(extra_codec),
+            [top, o, 1 if allow_create else 0, 1 if allow_xdev else 0], [encode_op(op) for op in ops], WRITE_MTIME]
 
 
 def encode_op(op):
